@@ -13,7 +13,7 @@ ASSUMPTIONS = ['workloads of well-formed pipelines with fresh ids']
 
 def monitor(run):
     first = {}
-    for rd in SP.rounds(run):
+    for rd in SP.rounds(run) + SP.failed_rounds(run):
         t = rd.t
         if rd.susp:
             yield f'tick {t}: the scheduler suspended a container'
@@ -65,6 +65,8 @@ def run(ctx):
         ('G-sim-naive-siblings', 80, 1500, dict(abandon='naive')),
         ('G-sim-starter-siblings', 40, 800, dict(abandon='starter')),
         ('G-sim-naive-branches', 40, 800, dict(branches='naive')),
+        ('G-sim-naive-failbranch', 60, 1200, dict(failbranch='naive')),
+        ('G-sim-starter-failbranch', 20, 400, dict(failbranch='starter')),
     ])
     # monitor-only stream: fractional CPU capacities (outside the integer-CPU domain of the model, so no
     # correspondence case is produced; the monitor still judges the implementation)
